@@ -68,7 +68,7 @@ theorem readEntries_sound (S Rp : List Str) : (n : Nat) → (items : List R) →
       · simp only [hb, if_true, Option.map_eq_some_iff] at h
         obtain ⟨d', hd', rfl⟩ := h
         simp only [plainB, Bool.and_eq_true, bne_iff_ne, ne_eq, Bool.not_eq_true'] at hb
-        exact .line kvs k v p rest d' hp ⟨hb.1.1, hb.1.2, hb.2⟩ (readEntries_sound S Rp n rest d' hd')
+        exact .line kvs k v p rest d' hp ⟨hb.1, hb.2⟩ (readEntries_sound S Rp n rest d' hd')
       · simp only [hb, Bool.false_eq_true, if_false] at h
         by_cases hr : (k != s%"config" && k != s%"points" && Rp.contains k) = true
         · simp only [hr, if_true, Option.map_eq_some_iff] at h
